@@ -1,4 +1,4 @@
-from . import engine, models, models_core, models_coll
+from . import engine, models, models_core, models_coll, models_rowan
 from .engine import *
 from .models import Iter, veq, str_eq, deep_clone
 ALL_CRATES = ['lexer', 'diagnostics', 'common_defs', 'cst', 'ast', 'parser', 'compiler']
